@@ -251,7 +251,9 @@ def _digests(seed, tier, lo, hi):
     for idx in range(lo, hi):
         sc = gen(run_seed(seed, ID, idx), tier)
         sc.update(property=ID, verif_seed=seed, run=idx)
-        o = check(sc)
+        import sys as _sys
+        from ..engine import safe_check
+        o = safe_check(_sys.modules[__name__], ID, sc)     # (an exception inside the library is a digest of its own, not a harness error)
         out.append(o.digest)
     return out
 
